@@ -15,7 +15,7 @@ COMMON_TRUSTED = [
     'Go toolchain, crypto/*, math/big, encoding/base64, strconv, fmt are modelled, not verified',
 ]
 
-HOOK_COMMITS = ['145a800', '0e007dd', '6fbda5a', '22cc77e', '98d302b', '55b74c7', 'fbf3b44']
+HOOK_COMMITS = ['145a800', '0e007dd', '6fbda5a', '22cc77e', '98d302b', '55b74c7', 'fbf3b44', '1c6222a']
 NOT_APPLICABLE = {}
 
 PROPS = {
